@@ -19,7 +19,7 @@ def stdFns (i : Nat) (o : Obj) : Bool :=
   | 1 => o.name == "a"
   | 2 => true
   | 3 => o.kind == "pod"
-  | _ => false
+  | n => if n ≥ 10 then AL.lookup "l" o.labels == some (toString (n - 10)) else false
 
 abbrev accStd (f : Filter) (o : Obj) : Bool := accept stdFns f o
 def feqStd (f g : Filter) : Bool := filtersEqual (some f) (some g)
